@@ -239,6 +239,6 @@ pub fn run(env: &mut Env) {
         window_rows(env, d(-1, 10, 1), d(1, 3, 1), true, &TODS);
         env.exhaustive_parts.push("C07: all ordered pairs of dates in 2020-01-01..2023-01-01, -2-01-01..2-12-31, -6-11-01..-4-03-01; all pairs of datetimes (3 times of day each) in 2019-11-01..2020-04-01 and -1-10-01..1-03-01".into());
     }
-    env.run_random::<Pair>(if t { 5_000_000 } else { 400_000 });
-    env.run_random::<Row>(if t { 20_000 } else { 1_000 });
+    env.run_random::<Pair>(if t { 5_000_000 } else { 1_500_000 });
+    env.run_random::<Row>(if t { 20_000 } else { 4_000 });
 }
